@@ -114,8 +114,10 @@ def _run(P, tier, seed, rnd, work, notes, t0):
         if sig:
             fid = P.classify(cases[i], a, sig)
             failures.append((i, sig, fid if fid in open_ids else None))
-    for f in extra["failures"]:    # (description, signature, finding id or None, replay payload)
-        pass
+    if hasattr(P, "group_oracle"):       # oracles that relate several cases (e.g. GET/HEAD/OPTIONS triples)
+        for i, sig in P.group_oracle(cases, impl):
+            fid = P.classify(cases[i], impl[i], sig)
+            failures.append((i, sig, fid if fid in open_ids else None))
     unknown = [(i, s) for i, s, fid in failures if fid is None]
     reproduced = collections.Counter(fid for _, _, fid in failures if fid)
     for d, s, fid, _ in extra["failures"]:
